@@ -205,7 +205,7 @@ impl Dbls {
 
 // ---- strings -------------------------------------------------------------------
 
-const CHARS: [char; 11] = ['a', '\'', '"', '\\', '\n', '\t', '\0', '{', 'é', '\u{ffff}', '\u{1F600}'];
+const CHARS: [char; 12] = ['a', '\'', '"', '\\', '\n', '\r', '\t', '\0', '{', 'é', '\u{ffff}', '\u{1F600}'];
 
 #[derive(Clone, Copy, Debug, PartialEq, Eq, Hash)]
 enum Esc {
@@ -608,7 +608,7 @@ pub fn replay_families(t: Tier) -> Vec<Family<'static>> {
 
 pub fn run(t: Tier) -> i32 {
     let mut rep = Report::new(ID, t, "exploration");
-    rep.rule = "ints/uints: every +-2^k, +-2^k+-1 (k<=63/64) and boundary value in decimal and four hexadecimal spellings, u/U suffixes, negatives through unary minus, plus the first out-of-range magnitudes; doubles: sign x finite exponents (all 2047 in thorough) x 10 mantissa patterns x up to 7 spellings (shortest and 17-digit scientific, E/e, explicit +, plain decimal, leading/trailing dot); strings: all strings up to the length bound over 11 characters (quotes, backslash, LF, TAB, NUL, brace, 2/3/4-byte UTF-8) with every applicable escape form per character, both quotes, plain/f/r prefixes; bytes: all 256 single bytes in every spelling and all pairs over 6 bytes; rejections: every proper prefix of every escape form, surrogates, code points above 10FFFF, malformed octal; sequences: all ordered pairs and triples of 24 literal spellings (int/uint extremes in decimal and hex, the minimum int with and without a blank or parentheses after the minus, doubles, strings, bytes, raw strings, a surrogate escape) inside one list literal - a sequence with a rejected literal must be rejected as a whole, otherwise it is the list of the spelled values; adjacent-operators: all ordered pairs of 16 numeric spellings (decimal, hexadecimal ending in e, u-suffixed, exponent forms) joined by each of 11 operators without blanks, with blanks and with newlines - the literal must end where the operator starts. The generator knows
+    rep.rule = "ints/uints: every +-2^k, +-2^k+-1 (k<=63/64) and boundary value in decimal and four hexadecimal spellings, u/U suffixes, negatives through unary minus, plus the first out-of-range magnitudes; doubles: sign x finite exponents (all 2047 in thorough) x 10 mantissa patterns x up to 7 spellings (shortest and 17-digit scientific, E/e, explicit +, plain decimal, leading/trailing dot); strings: all strings up to the length bound over 12 characters (quotes, backslash, LF, CR - so CR LF pairs occur verbatim -, TAB, NUL, brace, 2/3/4-byte UTF-8) with every applicable escape form per character, both quotes, plain/f/r prefixes; bytes: all 256 single bytes in every spelling and all pairs over 6 bytes; rejections: every proper prefix of every escape form, surrogates, code points above 10FFFF, malformed octal; sequences: all ordered pairs and triples of 24 literal spellings (int/uint extremes in decimal and hex, the minimum int with and without a blank or parentheses after the minus, doubles, strings, bytes, raw strings, a surrogate escape) inside one list literal - a sequence with a rejected literal must be rejected as a whole, otherwise it is the list of the spelled values; adjacent-operators: all ordered pairs of 16 numeric spellings (decimal, hexadecimal ending in e, u-suffixed, exponent forms) joined by each of 11 operators without blanks, with blanks and with newlines - the literal must end where the operator starts. The generator knows
  the value it spelled; the result must equal it bit for bit (or be a syntax error for the rejection set). Every case is non-trivial; distinct by source text".to_string();
     for f in replay_families(t) {
         rep.run_family(f);
